@@ -84,7 +84,7 @@ def children(e):
         yield e['scrut']
         for a in e['arms']:
             yield a['body']
-    elif k == 'loop':
+    elif k in ('loop', 'lblock'):
         yield e['body']
     elif k == 'macro':
         for a in e.get('args', []):
